@@ -39,6 +39,7 @@ SCRIPTS = [
     ["name s14", "version 1.0", "", "MeasureX | 2", "MeasureX | 10", "Dgate(q2-2*q10, k=q10/q2) | %(m)s", "Zgate(q10**2-q2) | %(m)s"],
     ["name s15", "version 1.0", "", "float array A[2, 2] =", "    {w}", "Gate(A, k={x}-{y}*{z}) | %(m)s"],
     ["name s16", "version 1.0", "", "Dgate(arcsin({a})*{b}-{c}, -({a}**2)+{b}) | %(m)s"],
+    ["name s17", "version 1.0", "", "Dgate({phi}-{phi_0}*{phi_0_1}, k={U}+{U_0_0}/{phi}) | %(m)s", "float array A =", "    {U}, {U_0_0}", "Gate(A, {phi_0}) | %(m)s"],
     ["name s12", "version 1.0", "target X8 (shots=%(i)s)", "", "Dgate(%(f)s, %(f)s) | %(m)s", "Vac | [%(m)s, %(m)s]"],
 ]
 
@@ -91,8 +92,13 @@ def observe(bb, spec, text):
     names = sorted(p.parameters)
     inst_text = None
     if names:
-        inst = p(**{n: 0.5 + 0.25 * k for k, n in enumerate(names)})
-        inst_text = bb.dumps(inst)
+        try:
+            inst = p(**{n: 0.5 + 0.25 * k for k, n in enumerate(names)})
+            inst_text = bb.dumps(inst)
+        except engine.Abort:
+            raise
+        except Exception as e:  # noqa  (an instance that cannot be serialised must not hide the template's own text)
+            inst_text = "raises %s" % type(e).__name__
     return (normalise(_snap.program(p)), t, inst_text)
 
 
@@ -188,8 +194,8 @@ def run_spec(spec):
     out["stats"] = E.stats
     if out["result"] == "holds":
         vals = [(0.5 + i if k == "float" else 3 + i) for i, (_, k, _) in enumerate(lv.vars)]
-        rr = seed_sweep(spec, vals, (0, 1, 2))
-        out["validated"] = 3
+        rr = seed_sweep(spec, vals, range(8))
+        out["validated"] = 8
         if isinstance(rr, dict):
             rr["symbolic_what"] = "digest differs between hash seeds although all explored orders agree (encoder gap)"
             out.update(result="violation", cex=rr)
@@ -249,7 +255,8 @@ def main():
     rep.bounds = {"scripts": len(SCRIPTS), "of which assembled through the API": len(API), "symbols per set": "<=4", "seed sweep on a difference": "PYTHONHASHSEED 0..23 (replay file: 0..63)"}
     rep.assumptions = [
         "one iteration order per distinct set content per path; int-keyed sets (modes) are not permuted: their order does not depend on the hash seed (include mode map: C07)",
-        "sets are intercepted at: sympy free_symbols (all classes defining it) and the name `set` in listener/program/utils/auxiliary",
+        "sets are intercepted at: sympy free_symbols (all classes defining it) and the names `set` / `frozenset` in listener/program/utils/auxiliary; "
+        "every script that holds is also run natively under PYTHONHASHSEED 0..7 (orders the stub cannot see, e.g. behind an lru_cache)",
         "the mapping order -> seed is not modelled: a difference between orders is reported only if some pair of seeds 0..23 shows it",
     ]
     results = U.run_parallel(run_spec, list(range(len(SCRIPTS))))
